@@ -356,7 +356,19 @@ fn normal_form(init: S4, h: &[Op]) -> Vec<Op> {
     let mut pending = Duration::ZERO;
     for op in h {
         match op {
-            Op::Adv(d) => pending += Duration::from_secs_f32(*d),
+            Op::Adv(d) => {
+                // merge only while the merged amount is itself exactly representable as an f32
+                // number of seconds (the statement's exact clause needs a+b representable)
+                let sum = pending + Duration::from_secs_f32(*d);
+                if Duration::from_secs_f32(sum.as_secs_f32()) == sum {
+                    pending = sum;
+                } else {
+                    if pending > Duration::ZERO {
+                        out.push(Op::Adv(pending.as_secs_f32()));
+                    }
+                    pending = Duration::from_secs_f32(*d);
+                }
+            }
             Op::Set(s) => {
                 if *s == cur {
                     continue;
@@ -532,6 +544,9 @@ fn alphabet(prop: Prop) -> Vec<Op> {
         v.extend([Op::Set(S4::X), Op::Set(S4::Y), Op::Set(S4::U1)]);
     } else if prop == Prop::C06 {
         v.push(Op::Adv(0.5));
+        // a very long frame: at 2^15 s the f32 ulp (2^-8 s) exceeds the smallest step, while the
+        // Duration clock stays exact - any schedule-dependent rounding of the clock shows up
+        v.push(Op::Adv(32768.0));
         v.extend([Op::Set(S4::X), Op::Set(S4::Y), Op::Set(S4::U1)]);
     } else {
         v.extend(S4_ALL.iter().map(|s| Op::Set(*s)));
